@@ -176,6 +176,12 @@ func (ri *RInterp) Run() *Result {
 // RDebug names a function whose visited (node, state) pairs are printed.
 var RDebug = os.Getenv("SIOT_RDEBUG")
 var rDebugN, rDebugSkip = 0, func() int { n, _ := strconv.Atoi(os.Getenv("SIOT_RDEBUG_SKIP")); return n }()
+var rDebugMax = func() int {
+	if n, err := strconv.Atoi(os.Getenv("SIOT_RDEBUG_N")); err == nil {
+		return n
+	}
+	return 400
+}()
 
 type rSV struct {
 	s S
@@ -511,7 +517,7 @@ func (ri *RInterp) appendFact(pre, s S, lhs, rhs ast.Expr, ents map[ast.Expr]str
 func (ri *RInterp) node(n ast.Node, s S) []S {
 	if RDebug != "" && RDebug == ri.F.Name {
 		rDebugN++
-		if rDebugN > rDebugSkip && rDebugN < rDebugSkip+400 {
+		if rDebugN > rDebugSkip && rDebugN < rDebugSkip+rDebugMax {
 			println(ri.at(n), s.Key())
 		}
 	}
